@@ -102,7 +102,9 @@ class Program:
         self.funcs: dict[str, FuncInfo] = {}
         self.classes: dict[str, ClassInfo] = {}       # by bare class name (unique in this code base)
         self.module_consts: dict[str, dict[str, ast.expr]] = {}
-        self.typed_dicts: dict[str, ast.ClassDef] = {}
+        self.typed_dicts: dict[str, ast.ClassDef] = {}      # bare name -> first definition (compat)
+        self.typed_dict_defs: dict[str, list] = {}          # bare name -> [(module, node)]
+        self.imports: dict[str, dict[str, str]] = {}        # module -> {name: source module}
         for mod, rel in MODULES.items():
             path = os.path.join(self.pkg, rel)
             with open(path, encoding="utf8") as f:
@@ -114,7 +116,15 @@ class Program:
 
     def _index(self, mod, tree, path):
         consts = self.module_consts.setdefault(mod, {})
+        imps = self.imports.setdefault(mod, {})
         for node in tree.body:
+            if isinstance(node, ast.ImportFrom) and node.module:
+                base = mod.rsplit(".", 1)[0] if node.level else ""
+                for _ in range(max(node.level - 1, 0)):
+                    base = base.rsplit(".", 1)[0]
+                src = (base + "." + node.module) if node.level else node.module
+                for a in node.names:
+                    imps[a.asname or a.name] = src
             if isinstance(node, ast.FunctionDef):
                 if any(ast.unparse(d) == "overload" for d in node.decorator_list):
                     continue
@@ -122,8 +132,9 @@ class Program:
                 self.funcs[fi.qualname] = fi
             elif isinstance(node, ast.ClassDef):
                 bases = [ast.unparse(b) for b in node.bases]
-                if "TypedDict" in bases or any(b in self.typed_dicts for b in bases):
-                    self.typed_dicts[node.name] = node
+                if "TypedDict" in bases or any(b in self.typed_dict_defs for b in bases):
+                    self.typed_dicts.setdefault(node.name, node)
+                    self.typed_dict_defs.setdefault(node.name, []).append((mod, node))
                     continue
                 ci = ClassInfo(mod, node.name, node)
                 self.classes[node.name] = ci
@@ -145,7 +156,8 @@ class Program:
                 # functional TypedDict("Name", {...})
                 v = node.value
                 if isinstance(v, ast.Call) and ast.unparse(v.func) == "TypedDict":
-                    self.typed_dicts[node.targets[0].id] = node
+                    self.typed_dicts.setdefault(node.targets[0].id, node)
+                    self.typed_dict_defs.setdefault(node.targets[0].id, []).append((mod, node))
 
     # lookup helpers --------------------------------------------------------------------------
     def find_method(self, cls: str, name: str) -> FuncInfo | None:
